@@ -158,12 +158,16 @@ fn main() {
             let Some((name, sig)) = rest.split_once('(') else { continue };
             let sig = sig.trim_end_matches(" {").trim();
             let argty = |s: &str| -> Option<&'static str> {
+                let parts: Vec<&str> = s.split(", ").collect();
                 Some(match s {
                     "v: i32" => "I",
                     "v: f32" => "F",
                     "v: Guid" => "G",
-                    "a: u8, b: u8, c: u8, d: u8" => "B",
                     "a: u16, b: u16" => "S",
+                    "race: Race, class: Class, gender: Gender, power: Power" => "R",
+                    "stand_state: UnitStandState, unknown1: u8, unknown2: u8, unknown3: u8" => "U",
+                    _ if parts.len() == 4 && parts.iter().all(|p| p.ends_with(": u8")) => "B",
+                    _ if parts.len() == 2 && parts[0].starts_with("item_slot: ") && parts[0].ends_with("::ItemSlot") && parts[1] == "item: Guid" => "SG",
                     _ => return None,
                 })
             };
@@ -184,12 +188,16 @@ fn main() {
                     "Guid" => Some("G"),
                     "(u8, u8, u8, u8)" => Some("B"),
                     "(u16, u16)" => Some("S"),
+                    "(Race, Class, Gender, Power)" => Some("R"),
+                    "(UnitStandState, u8, u8, u8)" => Some("U"),
                     _ => None,
                 };
                 match t {
                     Some(t) => fns.push((cur.clone(), name.to_string(), "get", t)),
                     None => skipped += 1,
                 }
+            } else if sig.starts_with("&self, item_slot: ") && sig.ends_with("::ItemSlot) -> Option<Guid>") {
+                fns.push((cur.clone(), name.to_string(), "get", "SG"));
             } else {
                 skipped += 1;
             }
@@ -203,20 +211,27 @@ fn main() {
             }
         }
         writeln!(out, "];").unwrap();
-        let arg_pat = |t: &str| match t {
-            "I" => ("Arg::I(v)", "*v"),
-            "F" => ("Arg::F(v)", "*v"),
-            "G" => ("Arg::G(v)", "wow_world_messages::Guid::new(*v)"),
-            "B" => ("Arg::B(a, b, c, d)", "*a, *b, *c, *d"),
-            _ => ("Arg::S(a, b)", "*a, *b"),
+        let arg_pat = |t: &str| -> (String, String, String) {
+            // (pattern, guard producing converted values or empty, call arguments)
+            match t {
+                "I" => ("Arg::I(v)".into(), String::new(), "*v".into()),
+                "F" => ("Arg::F(v)".into(), String::new(), "*v".into()),
+                "G" => ("Arg::G(v)".into(), String::new(), "wow_world_messages::Guid::new(*v)".into()),
+                "B" => ("Arg::B(a, b, c, d)".into(), String::new(), "*a, *b, *c, *d".into()),
+                "S" => ("Arg::S(a, b)".into(), String::new(), "*a, *b".into()),
+                "R" => ("Arg::B(a, b, c, d)".into(), format!("let (Ok(a), Ok(b), Ok(c), Ok(d)) = (wow_world_messages::{exp}::Race::try_from(*a), wow_world_messages::{exp}::Class::try_from(*b), wow_world_messages::{exp}::Gender::try_from(*c), wow_world_messages::{exp}::Power::try_from(*d)) else {{ return ERR; }};"), "a, b, c, d".into()),
+                "U" => ("Arg::B(a, b, c, d)".into(), format!("let Ok(a) = wow_world_messages::{exp}::UnitStandState::try_from(*a) else {{ return ERR; }};"), "a, *b, *c, *d".into()),
+                _ => ("Arg::SG(slot, v)".into(), format!("let Ok(slot) = wow_world_messages::{exp}::ItemSlot::try_from(*slot) else {{ return ERR; }};"), "slot, wow_world_messages::Guid::new(*v)".into()),
+            }
         };
         // mask setters
         writeln!(out, "pub fn um_set_{exp}(m: &mut AnyMask, name: &str, a: &Arg) -> bool {{\n    match (m, name, a) {{").unwrap();
         for (ty, name, class, t) in &fns {
             if *class == "set" {
                 let k = ty.trim_start_matches("Update");
-                let (pat, call) = arg_pat(t);
-                writeln!(out, "        (AnyMask::{e}{k}(x), \"{}\", {pat}) => {{ x.{name}({call}); true }}", name.trim_start_matches("set_")).unwrap();
+                let (pat, guard, call) = arg_pat(t);
+                let guard = guard.replace("ERR", "false");
+                writeln!(out, "        (AnyMask::{e}{k}(x), \"{}\", {pat}) => {{ {guard} x.{name}({call}); true }}", name.trim_start_matches("set_")).unwrap();
             }
         }
         writeln!(out, "        _ => false,\n    }}\n}}").unwrap();
@@ -225,22 +240,26 @@ fn main() {
         for (ty, name, class, t) in &fns {
             if *class == "bset" {
                 let k = ty.trim_start_matches("Update").trim_end_matches("Builder");
-                let (pat, call) = arg_pat(t);
-                writeln!(out, "        (AnyBuilder::{e}{k}(x), \"{}\", {pat}) => Ok(AnyBuilder::{e}{k}(x.{name}({call}))),", name.trim_start_matches("set_")).unwrap();
+                let (pat, guard, call) = arg_pat(t);
+                let guard = guard.replace("return ERR;", &format!("return Err(AnyBuilder::{e}{k}(x));"));
+                writeln!(out, "        (AnyBuilder::{e}{k}(x), \"{}\", {pat}) => {{ {guard} Ok(AnyBuilder::{e}{k}(x.{name}({call}))) }}", name.trim_start_matches("set_")).unwrap();
             }
         }
         writeln!(out, "        (m, _, _) => Err(m),\n    }}\n}}").unwrap();
         // getters
-        writeln!(out, "pub fn um_get_{exp}(m: &AnyMask, name: &str) -> Option<Got> {{\n    match (m, name) {{").unwrap();
+        writeln!(out, "pub fn um_get_{exp}(m: &AnyMask, name: &str, slot: u8) -> Option<Got> {{\n    let _ = slot;\n    match (m, name) {{").unwrap();
         for (ty, name, class, t) in &fns {
             if *class == "get" {
                 let k = ty.trim_start_matches("Update");
                 let conv = match *t {
-                    "I" => "x.NAME().map(Got::I)",
-                    "F" => "x.NAME().map(|v| Got::F(v.to_bits()))",
-                    "G" => "x.NAME().map(|v| Got::G(v.guid()))",
-                    "B" => "x.NAME().map(|(a, b, c, d)| Got::B(a, b, c, d))",
-                    _ => "x.NAME().map(|(a, b)| Got::S(a, b))",
+                    "I" => "x.NAME().map(Got::I)".to_string(),
+                    "F" => "x.NAME().map(|v| Got::F(v.to_bits()))".to_string(),
+                    "G" => "x.NAME().map(|v| Got::G(v.guid()))".to_string(),
+                    "B" => "x.NAME().map(|(a, b, c, d)| Got::B(a, b, c, d))".to_string(),
+                    "S" => "x.NAME().map(|(a, b)| Got::S(a, b))".to_string(),
+                    "R" => "x.NAME().map(|(a, b, c, d)| Got::B(a.as_int(), b.as_int(), c.as_int(), d.as_int()))".to_string(),
+                    "U" => "x.NAME().map(|(a, b, c, d)| Got::B(a.as_int(), b, c, d))".to_string(),
+                    _ => format!("wow_world_messages::{exp}::ItemSlot::try_from(slot).ok().and_then(|s| x.NAME(s)).map(|v| Got::G(v.guid()))"),
                 }
                 .replace("NAME", name);
                 writeln!(out, "        (AnyMask::{e}{k}(x), \"{name}\") => Some({conv}.unwrap_or(Got::Absent)),").unwrap();
